@@ -1,7 +1,801 @@
-"""C16 stub"""
+"""C16 - buzzer protocol of the generated firmware (tone/noTone/delay on the buzzer pin + getters).
+
+Engines
+  * Coq: coq/Props/C16.v (model coq/Device/DBuzzer.v, proofs coq/Proofs/BuzzerP.v); the melody score
+    table and the parser's name set are regenerated from /repo on every run (harness/gen/melodies.py)
+    and checked against the pinned scores of coq/Device/MelodySpec.v by theorem C16_tables_agree.
+  * correspondence: generated call sequences are run through the extracted model and, as Reduino
+    scripts transpiled by the real parser/emitter, compiled and executed under the mock Arduino core.
+  * property oracle: the C16 clauses evaluated directly on the firmware trace.
+"""
+from __future__ import annotations
+
+import math
+import struct
+from fractions import Fraction as Fr
+
 from harness import common as C
-META = {"id": "C16", "technique": "", "level_text": "", "level_note": "", "design_ref": ""}
-def run(ctx):
-    print(ctx.proof.get("what"), ctx.proof.get("log", "")[-1500:] if not ctx.proof.get("ok") else "proof ok")
-    print(ctx.model([[2]])[0][1][0][:2])
-    print(ctx.model([[0, 9, __import__("fractions").Fraction(440), [[6],[7],[8],[0, __import__("fractions").Fraction(881,2)],[6],[7],[8],[3,[],__import__("fractions").Fraction(10),__import__("fractions").Fraction(5),__import__("fractions").Fraction(2)],[5,"notify",[]]]], [1, "SIREN"], [1, "x"]]))
+from harness import fw
+
+META = {
+    "id": "C16",
+    "technique": "Coq proof (buzzer device model: induction over call sequences and loop counters; melody tables: reflection over translator-generated tables against a pinned score) + extracted-model correspondence with the emitted C++ executed under the mock Arduino core + property oracle on the firmware trace",
+    "level_text": "Theorems C16_* (coq/Props/C16.v) hold for all call sequences and all rational arguments of a Gallina model written line by line from the five buzzer emitter branches; the emitter's melody table and the parser's name set are regenerated from the source on every run and proved equal to a pinned score; the model is run against the real parser+emitter output (compiled, executed on the mock core) on exhaustive boundary grids, exhaustive pairs of boundary calls and seeded random sequences with literal and run-time arguments.",
+    "level_note": "Trusted: Coq kernel, translator harness/gen/melodies.py, extraction, OCaml driver, mock Arduino core (tone/noTone/delay/Serial/String(float)), g++. C++ float is modelled as exact rational; cases on which float32 and exact arithmetic round an integer output differently are not generated (measured). Negative durations (unsigned wrap / undefined conversion) are outside the guard: known finding.",
+    "design_ref": "DESIGN.md section 4 C16",
+}
+
+FREQS = [-5, 0, 1, 440, 440.4, 440.5, 65535]
+DURS = [0, 1, 50, 2.5]
+TIMES = [-1, 0, 1, 3]
+STEPS = [-1, 0, 1, 2, 5]
+TEMPOS = [-10, 0, 60, 120, 240]
+SEVEN = ["success", "error", "startup", "notify", "alarm", "scale_c", "siren"]
+DEFAULTS = [None, 523.25, 0, -5, 440.4]
+DEF = {"on": 100, "off": 100, "times": 1, "steps": 10}
+OFF = 100000
+HEADER = ("from Reduino.Actuators import Buzzer\nfrom Reduino.Communication import SerialMonitor\n"
+          "from Reduino.Core import analog_read\nmon = SerialMonitor(9600)\n")
+
+
+# ----------------------------------------------------------------------------- numbers
+def f32(x) -> float:
+    return struct.unpack("f", struct.pack("f", float(x)))[0]
+
+
+def qfreq(a) -> Fr:       # static_cast<float>(expr)
+    return Fr(f32(a[0]))
+
+
+def qdur(a) -> Fr:        # the double (or int) the unsigned-long cast sees
+    return Fr(float(a[0])) if isinstance(a[0], float) else Fr(a[0])
+
+
+qint = qdur
+
+
+def trunc(q: Fr) -> int:
+    return int(q)          # toward zero
+
+
+def rnd(q: Fr) -> int:     # static_cast<unsigned int>(f + 0.5f), f > 0
+    return math.floor(q + Fr(1, 2))
+
+
+class F32:
+    """float32 arithmetic (each operation correctly rounded: binary64 has > 2*24+2 bits)."""
+    __slots__ = ("v",)
+
+    def __init__(self, v):
+        self.v = f32(v.v if isinstance(v, F32) else v)
+
+    def _o(self, o):
+        return o.v if isinstance(o, F32) else float(o)
+
+    def __add__(self, o): return F32(self.v + self._o(o))
+    def __sub__(self, o): return F32(self.v - self._o(o))
+    def __mul__(self, o): return F32(self.v * self._o(o))
+    def __truediv__(self, o): return F32(self.v / self._o(o))
+    def __lt__(self, o): return self.v < self._o(o)
+    def __le__(self, o): return self.v <= self._o(o)
+    def __gt__(self, o): return self.v > self._o(o)
+    def __floor__(self): return math.floor(self.v)
+
+
+def numeric_sites(case, spec, N):
+    """Every integer / sign decision the firmware derives from float arithmetic, computed with the
+    number type N (Fraction = the model's exact rationals, F32 = the device's float).  Harness-side
+    arithmetic only: used to keep cases on which the two disagree out of the generated set."""
+    half, zero = N(Fr(1, 2)), N(0)
+    d0 = case["default"]
+    last = N(Fr(f32(440.0 if d0 is None else d0)))
+    out = []
+
+    def clamp(x):
+        return zero if x < zero else x
+
+    for c in case["calls"]:
+        k = c["k"]
+        if k == "play":
+            f = clamp(N(qfreq(c["f"])))
+            if f > zero:
+                out.append(math.floor(f + half))
+                last = f
+        elif k == "beep":
+            t = clamp(N(qfreq(c["f"])) if c["f"] is not None else last)
+            n = max(0, trunc(qint(c["times"] or [DEF["times"], False])))
+            out.append(t > zero)
+            if t > zero and n > 0:
+                out.append(math.floor(t + half))
+                last = t
+        elif k == "sweep":
+            s, e = clamp(N(qfreq(c["s"]))), clamp(N(qfreq(c["e"])))
+            total = math.floor(qdur(c["d"]))
+            n = max(1, trunc(qint(c["steps"] or [DEF["steps"], False])))
+            sd = N(total) / N(n)
+            out.append(sd > zero)
+            if sd > zero:
+                out.append(math.floor(sd))
+            for i in range(n):
+                p = N(1) if n == 1 else N(i) / (N(n) - N(1))
+                f = clamp(s + (e - s) * p)
+                out.append(f > zero)
+                if f > zero:
+                    out.append(math.floor(f + half))
+                    last = f
+        elif k == "melody":
+            t0, notes = spec[c["name"].lower()]
+            t = N(qfreq(c["tempo"])) if c["tempo"] is not None else N(t0)
+            if t <= zero:
+                t = N(t0)
+            beat = N(60000) / t
+            for fq, b in notes:
+                dur = N(b) * beat
+                out.append(dur > zero)
+                if dur > zero:
+                    out.append(math.floor(dur))
+                f = N(fq)
+                if f > zero:
+                    out.append(math.floor(f + half))
+                    last = f
+    return out
+
+
+# ----------------------------------------------------------------------------- cases -> wire
+def A(v, rt=False):
+    return [v, bool(rt)]
+
+
+def wire_call(c):
+    k = c["k"]
+    if k == "play":
+        return [0, qfreq(c["f"])] if c["d"] is None else [1, qfreq(c["f"]), qdur(c["d"])]
+    if k == "stop":
+        return [2]
+    if k == "beep":
+        return [3, [] if c["f"] is None else [qfreq(c["f"])], qdur(c["on"] or [DEF["on"], False]),
+                qdur(c["off"] or [DEF["off"], False]), qint(c["times"] or [DEF["times"], False])]
+    if k == "sweep":
+        return [4, qfreq(c["s"]), qfreq(c["e"]), qdur(c["d"]), qint(c["steps"] or [DEF["steps"], False])]
+    if k == "melody":
+        return [5, c["name"].lower(), [] if c["tempo"] is None else [qfreq(c["tempo"])]]
+    raise ValueError(k)
+
+
+def wire_case(case):
+    items = [[6], [7], [8]]
+    for c in case["calls"]:
+        items.append(wire_call(c))
+        items += [[6], [7], [8]]
+    d0 = case["default"]
+    return [0, case["pin"], Fr(f32(440.0 if d0 is None else d0)), items]
+
+
+def model_segments(out):
+    """model output -> [getters0, (events, getters) ...]"""
+    evs = out[1]
+    segs, cur, i = [], [], 0
+    while i < len(evs):
+        e = evs[i]
+        if e[0] == 3:
+            g = (e[1], C.wq(evs[i + 1][1]), C.wq(evs[i + 2][1]))
+            segs.append((cur, g))
+            cur = []
+            i += 3
+        else:
+            cur.append(("T", e[1], e[2]) if e[0] == 0 else ("NT", e[1]) if e[0] == 1 else ("D", e[1]))
+            i += 1
+    return segs
+
+
+# ----------------------------------------------------------------------------- cases -> script
+class Sketch:
+    def __init__(self):
+        self.lines = [HEADER.rstrip("\n")]
+        self.reads = []
+        self.nvar = 0
+        self.ids = []
+
+    def expr(self, a):
+        v, rt = a
+        if not rt:
+            return repr(v)
+        name = f"r{self.nvar}"
+        self.nvar += 1
+        self.lines.append(f'{name} = analog_read("A0")')
+        fr = Fr(str(v)) if isinstance(v, float) else Fr(v)
+        if fr.denominator == 1:
+            self.reads.append(int(fr) + OFF)
+            return f"({name} - {OFF})"
+        D = next(D for D in (2, 4, 8, 10, 100, 1000) if (fr * D).denominator == 1)
+        reading = int(fr * D) + OFF
+        assert (reading - OFF) / float(D) == v, (v, D)
+        self.reads.append(reading)
+        return f"({name} - {OFF}) / {D}.0"
+
+    def call_line(self, var, c, style):
+        k = c["k"]
+        if k == "play":
+            f = self.expr(c["f"])
+            if c["d"] is None:
+                return f"{var}.play_tone({f})" if style % 2 == 0 else f"{var}.play_tone(frequency={f})"
+            d = self.expr(c["d"])
+            return [f"{var}.play_tone({f}, {d})", f"{var}.play_tone({f}, duration_ms={d})",
+                    f"{var}.play_tone(frequency={f}, duration_ms={d})"][style % 3]
+        if k == "stop":
+            return f"{var}.stop()"
+        if k == "beep":
+            parts = []
+            if c["f"] is not None:
+                f = self.expr(c["f"])
+                parts.append(f if style % 2 == 0 else f"frequency={f}")
+            for key, kw in (("on", "on_ms"), ("off", "off_ms"), ("times", "times")):
+                if c[key] is not None:
+                    parts.append(f"{kw}={self.expr(c[key])}")
+            return f"{var}.beep({', '.join(parts)})"
+        if k == "sweep":
+            s, e, d = self.expr(c["s"]), self.expr(c["e"]), self.expr(c["d"])
+            head = f"{s}, {e}" if style % 2 == 0 else f"start_hz={s}, end_hz={e}"
+            tail = "" if c["steps"] is None else f", steps={self.expr(c['steps'])}"
+            return f"{var}.sweep({head}, duration_ms={d}{tail})"
+        if k == "melody":
+            nm = f'"{c["name"]}"' if style % 2 == 0 else f'name="{c["name"]}"'
+            tail = "" if c["tempo"] is None else f", tempo={self.expr(c['tempo'])}"
+            return f"{var}.melody({nm}{tail})"
+        raise ValueError(k)
+
+    def add_case(self, cid, case):
+        var = f"b{len(self.ids)}"
+        self.ids.append(cid)
+        d0 = case["default"]
+        self.lines.append(f"{var} = Buzzer({case['pin']})" if d0 is None
+                          else f"{var} = Buzzer({case['pin']}, default_frequency={d0!r})")
+        self.lines.append(f'mon.write("##case {cid}")')
+        getters = [f"mon.write({var}.get_state())", f"mon.write({var}.get_frequency())",
+                   f"mon.write({var}.get_last_frequency())"]
+        self.lines += getters
+        for j, c in enumerate(case["calls"]):
+            self.lines.append(self.call_line(var, c, case.get("style", 0) + j))
+            self.lines += getters
+
+    def job(self):
+        src = "\n".join(self.lines) + "\n"
+        inp = ("ar 14 " + " ".join(str(r) for r in self.reads) + "\n") if self.reads else ""
+        return src, inp
+
+
+def fw_segments(events):
+    """firmware events of one case -> [(pin events, (state, freq, last))...] or None if malformed"""
+    segs, cur, i = [], [], 0
+    ev = [e for e in events if not e.startswith("AR ") and not e.startswith("M ")]
+    while i < len(ev):
+        p = ev[i].split()
+        if p[0] == "S":
+            try:
+                g = (int(ev[i][2:]), float(ev[i + 1][2:]), float(ev[i + 2][2:]))
+            except (ValueError, IndexError):
+                return None
+            if not (ev[i + 1].startswith("S ") and ev[i + 2].startswith("S ")):
+                return None
+            segs.append((cur, g))
+            cur = []
+            i += 3
+            continue
+        if p[0] == "T" and len(p) == 3:
+            cur.append(("T", int(p[1]), int(p[2])))
+        elif p[0] == "NT" and len(p) == 2:
+            cur.append(("NT", int(p[1])))
+        elif p[0] == "D" and len(p) == 2:
+            cur.append(("D", int(p[1])))
+        else:
+            cur.append(("?", ev[i]))
+        i += 1
+    if cur:
+        return None
+    return segs
+
+
+# ----------------------------------------------------------------------------- oracle on the firmware trace
+def tol(case):
+    m = 1000.0
+    for c in case["calls"]:
+        for key in ("f", "s", "e"):
+            if c.get(key) is not None:
+                m = max(m, abs(float(c[key][0])))
+    return 0.006 + 4e-7 * m
+
+
+def beep_pattern(pin, t, on, off, n):
+    out = []
+    for i in range(n):
+        out.append(("T", pin, t))
+        if on > 0:
+            out.append(("D", on))
+        out.append(("NT", pin))
+        if i + 1 < n and off > 0:
+            out.append(("D", off))
+    return out
+
+
+def oracle(ctx, case, segs, spec):
+    """the C16 clauses, evaluated on the firmware trace of one case (segs from fw_segments)"""
+    pin, eps = case["pin"], tol(case)
+    d0 = case["default"]
+    default = f32(440.0 if d0 is None else d0)
+    sounding, last_t, last_src = False, None, None
+    fails = []
+
+    def bad(key, what, expected, observed, j):
+        fails.append((key, f"call #{j} {case['calls'][j]['k'] if j >= 0 else 'declaration'}: {what}", expected, observed))
+
+    # initial getters
+    ev0, g0 = segs[0]
+    if ev0 or g0[0] != 0 or abs(g0[1]) > eps or abs(g0[2] - default) > eps:
+        bad("getters", "fresh buzzer must be silent, frequency 0, last = default_frequency", (0, 0.0, default), (ev0, g0), -1)
+    prev_last_printed = g0[2]
+    for j, c in enumerate(case["calls"]):
+        evs, g = segs[j + 1]
+        k = c["k"]
+        tones = [e[2] for e in evs if e[0] == "T"]
+        delays = [e[1] for e in evs if e[0] == "D"]
+        if any(e[0] == "?" or (e[0] in ("T", "NT") and e[1] != pin) for e in evs):
+            bad("pin", "event on a foreign pin / unknown event", f"only pin {pin}", evs, j)
+        # ---- clause 1: a frequency <= 0 never starts a tone
+        nonpos = (k == "play" and qfreq(c["f"]) <= 0) or \
+                 (k == "beep" and c["f"] is not None and qfreq(c["f"]) <= 0) or \
+                 (k == "beep" and c["f"] is None and (last_src if last_src is not None else Fr(default)) <= 0) or \
+                 (k == "sweep" and qfreq(c["s"]) <= 0 and qfreq(c["e"]) <= 0)
+        if nonpos and tones:
+            bad("nonpositive-tones", "a frequency <= 0 started a tone", "no tone()", evs, j)
+        # ---- per-call clauses
+        if k == "play" and qfreq(c["f"]) > 0:
+            t = rnd(qfreq(c["f"]))
+            exp = [("T", pin, t)]
+            if c["d"] is not None:
+                du = math.floor(qdur(c["d"]))
+                exp += ([("D", du)] if du > 0 else []) + [("NT", pin)]
+            if evs != exp:
+                bad("play-tone", "play_tone does not sound the given frequency for the given duration", exp, evs, j)
+        if k == "beep":
+            n = max(0, trunc(qint(c["times"] or A(DEF["times"]))))
+            on = math.floor(qdur(c["on"] or A(DEF["on"])))
+            off = math.floor(qdur(c["off"] or A(DEF["off"])))
+            target = qfreq(c["f"]) if c["f"] is not None else (last_src if last_src is not None else Fr(default))
+            if target > 0:
+                exp = beep_pattern(pin, rnd(target), on, off, n)
+                if evs != exp:
+                    bad("beep-counts", f"beep must sound exactly {n} time(s) with the given on/off gaps", exp, evs, j)
+        if k == "sweep":
+            n = max(1, trunc(qint(c["steps"] or A(DEF["steps"]))))
+            s, e = max(Fr(0), qfreq(c["s"])), max(Fr(0), qfreq(c["e"]))
+            total = math.floor(qdur(c["d"]))
+            if len(tones) > n:
+                bad("sweep-count", "sweep plays more tones than steps", f"<= {n}", tones, j)
+            if s <= e and any(a > b for a, b in zip(tones, tones[1:])):
+                bad("sweep-monotone", "rising sweep is not monotone", "non-decreasing", tones, j)
+            if s >= e and any(a < b for a, b in zip(tones, tones[1:])):
+                bad("sweep-monotone", "falling sweep is not monotone", "non-increasing", tones, j)
+            if e > 0 and (not tones or tones[-1] != rnd(e)):
+                bad("sweep-end", "sweep does not end on the end frequency", rnd(e), tones, j)
+            if s > 0 and e > 0:
+                if len(tones) != n:
+                    bad("sweep-count", "sweep does not play `steps` tones", n, tones, j)
+                if n > 1 and tones and tones[0] != rnd(s):
+                    bad("sweep-start", "sweep does not start on the start frequency", rnd(s), tones, j)
+            if sum(delays) > max(total, 0):
+                bad("sweep-duration", "sweep delays exceed the given duration", f"<= {total}", delays, j)
+        if k == "melody":
+            t0, notes = spec[c["name"].lower()]
+            t = qfreq(c["tempo"]) if c["tempo"] is not None else t0
+            if t <= 0:
+                t = t0
+            beat = Fr(60000) / t
+            exp = []
+            for fq, b in notes:
+                dur = b * beat
+                de = [("D", math.floor(dur))] if dur > 0 else []
+                exp += ([("NT", pin)] + de) if fq <= 0 else ([("T", pin, rnd(fq))] + de + [("NT", pin)])
+            if evs != exp:
+                bad("melody-score", "melody does not play the pinned score scaled by 60000/tempo", exp, evs, j)
+        # ---- track the pin
+        for e in evs:
+            if e[0] == "T":
+                sounding, last_t = True, e[2]
+            elif e[0] == "NT":
+                sounding = False
+        # source frequency of the last tone, from the arguments (property-level bookkeeping)
+        if k == "play" and qfreq(c["f"]) > 0:
+            last_src = qfreq(c["f"])
+        elif k == "beep" and tones:
+            last_src = qfreq(c["f"]) if c["f"] is not None else last_src if last_src is not None else Fr(default)
+        elif k == "sweep" and tones:
+            n = max(1, trunc(qint(c["steps"] or A(DEF["steps"]))))
+            s, e = max(Fr(0), qfreq(c["s"])), max(Fr(0), qfreq(c["e"]))
+            fs = [e if n == 1 else s + (e - s) * Fr(i, n - 1) for i in range(n)]
+            pos = [f for f in fs if f > 0]
+            last_src = pos[-1] if pos else last_src
+        elif k == "melody" and tones:
+            pos = [fq for fq, _ in spec[c["name"].lower()][1] if fq > 0]
+            last_src = pos[-1] if pos else last_src
+        # ---- clause 2: timed calls leave the pin silent, state false (inside the guard)
+        timed = (k == "play" and c["d"] is not None) or k in ("beep", "sweep", "melody")
+        if timed and (sounding or g[0] != 0 or abs(g[1]) > eps):
+            bad("timed-silent", "a call with a duration must leave the pin silent, get_state() false, get_frequency() 0",
+                {"sounding": False, "state": 0, "frequency": 0.0}, {"sounding": sounding, "getters": g, "events": evs}, j)
+        # ---- clause 6: getters report the tone currently / last sounded
+        if g[0] != (1 if sounding else 0):
+            bad("getters", "get_state() differs from whether the pin is sounding", int(sounding), g, j)
+        if sounding:
+            want = float(last_src) if last_src is not None else None
+            if abs(g[1] - last_t) > 0.5 + eps or (want is not None and abs(g[1] - want) > eps):
+                bad("getters", "get_frequency() is not the tone currently sounded", want if want is not None else last_t, g, j)
+        elif abs(g[1]) > eps:
+            bad("getters", "get_frequency() must be 0 while silent", 0.0, g, j)
+        if last_t is None:
+            if abs(g[2] - default) > eps:
+                bad("getters", "get_last_frequency() must stay default_frequency until a tone sounds", default, g, j)
+        else:
+            want = float(last_src) if last_src is not None else None
+            if abs(g[2] - last_t) > 0.5 + eps or (want is not None and abs(g[2] - want) > eps):
+                bad("getters", "get_last_frequency() is not the tone last sounded", want if want is not None else last_t, g, j)
+        prev_last_printed = g[2]
+    for key, what, expected, observed in fails:
+        ctx.fail(what, case, expected, observed, key=key)
+    return fails
+
+
+# ----------------------------------------------------------------------------- generators
+def in_guard(case):
+    """beep(times < 1) while a tone is left running is the known finding F-C16-beep-zero-keeps-tone;
+    negative durations are F-C16-negative-runtime-duration / undefined behaviour."""
+    sounding = False
+    for c in case["calls"]:
+        k = c["k"]
+        for key in ("d", "on", "off"):
+            if c.get(key) is not None and qdur(c[key]) < 0:
+                return False
+        if k == "play":
+            sounding = c["d"] is None and qfreq(c["f"]) > 0
+        elif k == "beep":
+            if max(0, trunc(qint(c["times"] or A(DEF["times"])))) < 1:
+                if sounding:
+                    return False
+            else:
+                sounding = False
+        else:
+            sounding = False
+    return True
+
+
+def play(f, d=None): return {"k": "play", "f": A(f), "d": None if d is None else A(d)}
+def stop(): return {"k": "stop"}
+def beep(f, on, off, times): return {"k": "beep", "f": None if f is None else A(f), "on": None if on is None else A(on),
+                                     "off": None if off is None else A(off), "times": None if times is None else A(times)}
+def sweep(s, e, d, steps): return {"k": "sweep", "s": A(s), "e": A(e), "d": A(d), "steps": None if steps is None else A(steps)}
+def melody(name, tempo=None): return {"k": "melody", "name": name, "tempo": None if tempo is None else A(tempo)}
+
+
+def route(c, rt):
+    """copy of call c with every argument literal (rt False) or run-time (rt True)"""
+    out = dict(c)
+    for key in ("f", "d", "on", "off", "times", "s", "e", "steps", "tempo"):
+        if out.get(key) is not None:
+            out[key] = [out[key][0], bool(rt)]
+    return out
+
+
+def grid_ops(thorough):
+    ops = [play(f) for f in FREQS] + [play(f, d) for f in FREQS for d in DURS] + [stop()]
+    onoff = [(a, b) for a in DURS for b in DURS]
+    k = 0
+    for f in [None] + FREQS:
+        for t in TIMES:
+            for r in range(len(onoff) if thorough else 2):
+                a, b = onoff[(k + r) % len(onoff)] if not thorough else onoff[r]
+                ops.append(beep(f, a, b, t))
+            k += 2
+    ds = [(d, n) for d in DURS for n in STEPS]
+    k = 0
+    for s in FREQS:
+        for e in FREQS:
+            for r in range(len(ds) if thorough else 2):
+                d, n = ds[(k + r) % len(ds)] if not thorough else ds[r]
+                ops.append(sweep(s, e, d, n))
+            k += 2
+    ops += [melody(m, t) for m in SEVEN for t in [None] + TEMPOS]
+    return ops
+
+
+PAIR_ALPHABET = [
+    play(440), play(-5), play(0), play(440.5), play(65535), play(440, 50), play(0, 1), play(440.4, 2.5), play(1, 0),
+    stop(),
+    beep(None, 1, 1, 3), beep(440.4, 50, 0, 1), beep(-5, 1, 1, 3), beep(None, None, None, 0), beep(440, 0, 50, -1),
+    beep(65535, 2.5, 2.5, None),
+    sweep(440, 65535, 50, 5), sweep(440.5, 1, 1, 2), sweep(-5, 0, 50, 1), sweep(1, 440, 2.5, 0), sweep(0, 440, 0, -1),
+    sweep(440.4, 440.5, 50, None),
+    melody("notify"), melody("siren", -10), melody("error", 60), melody("scale_c", 0), melody("success", 240),
+    melody("alarm", 120), melody("startup"),
+]
+
+
+def random_call(rng):
+    k = rng.choice(["play", "play", "stop", "beep", "beep", "sweep", "sweep", "melody"])
+    fq = lambda: rng.choice(FREQS + [rng.randrange(-40, 8000) / 8, rng.randrange(1, 3000), 261.63, 783.99])
+    du = lambda: rng.choice(DURS + [rng.randrange(0, 400) / 2, 7, 100])
+    if k == "play":
+        c = play(fq(), du() if rng.random() < 0.6 else None)
+    elif k == "stop":
+        c = stop()
+    elif k == "beep":
+        c = beep(fq() if rng.random() < 0.7 else None, du() if rng.random() < 0.8 else None,
+                 du() if rng.random() < 0.8 else None, rng.choice(TIMES + [2, 2.5, 4, -1.5]) if rng.random() < 0.85 else None)
+    elif k == "sweep":
+        c = sweep(fq(), fq(), du(), rng.choice(STEPS + [3, 9, 4, 7, 2.5]) if rng.random() < 0.85 else None)
+    else:
+        nm = rng.choice(SEVEN)
+        nm = rng.choice([nm, nm, nm.upper(), nm.capitalize()])
+        c = melody(nm, rng.choice(TEMPOS + [90, 200, 180, 333, 100.5, 1]) if rng.random() < 0.7 else None)
+    out = dict(c)
+    for key in ("f", "d", "on", "off", "times", "s", "e", "steps", "tempo"):
+        if out.get(key) is not None:
+            out[key] = [out[key][0], rng.random() < 0.5]
+    return out
+
+
+def build_cases(ctx):
+    rng, thorough = ctx.rng, ctx.tier == "thorough"
+    cases = []
+
+    def add(kind, calls, default=None, style=0):
+        cases.append({"kind": kind, "pin": 2 + len(cases) % 12, "default": default, "calls": calls, "style": style})
+
+    # (1) every grid point once, chained 4 per case behind a priming call, literal / run-time alternating
+    g = grid_ops(thorough)
+    for i in range(0, len(g), 4):
+        rt = ((i // 4) + ctx.seed) % 2 == 1
+        add("grid", [route(c, rt) for c in g[i:i + 4]], DEFAULTS[(i // 4) % len(DEFAULTS)], style=i // 4)
+    if thorough:
+        for i in range(0, len(g), 4):
+            rt = ((i // 4) + ctx.seed) % 2 == 0
+            add("grid", [route(c, rt) for c in g[i:i + 4]], DEFAULTS[(i // 4 + 1) % len(DEFAULTS)], style=i // 4 + 1)
+    # (2) exhaustive ordered pairs over the boundary alphabet
+    modes = [(False, False), (True, True), (False, True), (True, False)]
+    for i, a in enumerate(PAIR_ALPHABET):
+        for j, b in enumerate(PAIR_ALPHABET):
+            m = modes[(i + j + ctx.seed) % 4]
+            add("pair", [route(a, m[0]), route(b, m[1])], None, style=i + j)
+    # (3) seeded random sequences, length <= 8
+    for _ in range(1500 if thorough else 110):
+        add("random", [random_call(rng) for _ in range(rng.randint(1, 8))], rng.choice(DEFAULTS), style=rng.randrange(6))
+    return cases
+
+
+# ----------------------------------------------------------------------------- running
+def run_firmware(cases, per_sketch):
+    """-> {case index: segments or ('error', text)}"""
+    sketches, cur, n_ops = [], Sketch(), 0
+    for i, case in enumerate(cases):
+        if n_ops and n_ops + len(case["calls"]) > per_sketch:
+            sketches.append(cur)
+            cur, n_ops = Sketch(), 0
+        cur.add_case(i, case)
+        n_ops += len(case["calls"]) + 1
+    if cur.ids:
+        sketches.append(cur)
+    jobs = [s.job() for s in sketches]
+    tr = fw.transpile_many([src for src, _ in jobs])
+    out, runs = {}, []
+    for s, (src, inp), t in zip(sketches, jobs, tr):
+        if not t["ok"]:
+            for cid in s.ids:
+                out[cid] = ("error", f"transpile: {t.get('exc')}: {t.get('msg')}")
+        else:
+            runs.append((s, {"cpp": t["cpp"], "input": inp, "loops": 0, "run_timeout": 60}))
+    res = fw.run_sketches([j for _, j in runs])
+    for (s, _), r in zip(runs, res):
+        if not r["compiled"] or r["rc"] != 0:
+            for cid in s.ids:
+                out[cid] = ("error", "compile: " + r["compile_log"][-400:] if not r["compiled"] else f"run rc={r['rc']} {r['stderr'][-300:]}")
+            continue
+        by = fw.split_cases(r["events"])
+        for cid in s.ids:
+            segs = fw_segments(by.get(str(cid), ["?missing"]))
+            out[cid] = segs if segs is not None else ("error", "malformed trace: " + " | ".join(by.get(str(cid), [])[:30]))
+    return out, len(sketches)
+
+
+def compare(ctx, case, msegs, fsegs):
+    eps = tol(case)
+    if len(msegs) != len(fsegs):
+        ctx.disagree("number of getter blocks", case, len(msegs), len(fsegs))
+        return False
+    for j, ((me, mg), (fe, fg)) in enumerate(zip(msegs, fsegs)):
+        what = "initial getters" if j == 0 else f"call #{j - 1} {case['calls'][j - 1]['k']}"
+        if me != fe:
+            ctx.disagree(f"{what}: pin events model vs firmware", case, me, fe)
+            return False
+        if mg[0] != fg[0] or abs(float(mg[1]) - fg[1]) > eps or abs(float(mg[2]) - fg[2]) > eps:
+            ctx.disagree(f"{what}: getters (state, frequency, last) model vs firmware", case,
+                         (mg[0], float(mg[1]), float(mg[2])), fg)
+            return False
+    return True
+
+
+def load_spec(ctx):
+    rows = ctx.model([[2]])[0][1]
+    return {C.wstr(r[0]): (C.wq(r[1]), [(C.wq(f), C.wq(b)) for f, b in r[2]]) for r in rows}
+
+
+PINNED_FALLBACK = None  # the oracle needs the pinned scores; without the model executable it is skipped
+
+
+def check_names(ctx, spec, impl_tables):
+    """parser acceptance of melody names: model vs real parser, and the statement's seven names"""
+    cands = []
+    for n in SEVEN:
+        cands += [n, n.upper(), n.capitalize(), n[:-1], n + " ", n + "x"]
+    cands += ["", "beep", "scale-c", "Scale_C", "SIREN", "tune"]
+    cands = sorted(set(cands))
+    srcs = [HEADER + f'bz = Buzzer(8)\nbz.melody("{n}")\nmon.write("done")\n' for n in cands]
+    res = fw.transpile_many(srcs)
+    models = ctx.model([[1, n] for n in cands]) if ctx.exe else [None] * len(cands)
+    n_acc = 0
+    for n, r, m in zip(cands, res, models):
+        real = n
+        accepted = bool(r["ok"])
+        n_acc += accepted
+        if not accepted and r.get("exc") != "ValueError":
+            ctx.fail(f"melody({real!r}) fails with {r.get('exc')} instead of ValueError", ["melody-name", real], "ok or ValueError", r, key="melody-name-exc")
+        should = real.lower() in SEVEN
+        if accepted != should:
+            ctx.fail("melody name acceptance differs from 'one of the seven tunes (case-insensitive)'", ["melody-name", real],
+                     "accepted" if should else "ValueError", r.get("exc", "accepted"), key="melody-name")
+        if accepted and "__redu_freqs" not in r["cpp"]:
+            ctx.fail("melody name accepted by the parser but the emitter generates no tune for it", ["melody-name", real],
+                     "a melody block", "no code", key="melody-missing-in-emitter")
+        if m is not None:
+            m_acc = m[:2] == [0, 1]
+            if m_acc != accepted or (m_acc and (C.wstr(m[2]) != real.lower() or m[3] != 1)):
+                ctx.disagree("melody name: model vs parser", ["melody-name", real], m, r.get("exc", "accepted"))
+    # the live tables themselves (property oracle on the real objects)
+    if sorted(impl_tables["parser_names"]) != sorted(impl_tables["emitter"].keys()):
+        ctx.fail("parser melody-name set differs from the emitter's score-table keys", ["tables"],
+                 sorted(impl_tables["parser_names"]), sorted(impl_tables["emitter"].keys()), key="tables-names")
+    return len(cands), n_acc
+
+
+def listed_findings(ctx):
+    """known_findings.json entries for C16, plus this work package's own file (same entries before the merge)"""
+    import json
+    items = {f["id"]: f for f in ctx.findings}
+    p = C.VERIF / "known_findings.d" / "C16.json"
+    if p.exists():
+        for f in json.loads(p.read_text()):
+            items.setdefault(f["id"], f)
+    return list(items.values())
+
+
+def replay_findings(ctx, spec):
+    witnesses = []
+    for f in listed_findings(ctx):
+        if f.get("kind") == "fixed":
+            continue
+        witnesses.append((f, {"kind": "finding", "pin": 8, "default": f["witness"].get("default"),
+                              "calls": f["witness"]["calls"], "style": 0}))
+    if not witnesses:
+        return
+    fwres, _ = run_firmware([w for _, w in witnesses], 10 ** 6)
+    for i, (f, case) in enumerate(witnesses):
+        segs = fwres.get(i)
+        if isinstance(segs, tuple):
+            continue
+        probe = C.Ctx("C16", ctx.tier, ctx.seed)
+        probe.findings = []
+        try:
+            oracle(probe, case, segs, spec)
+        except Exception:
+            continue
+        if probe.failures:
+            ctx.known(f"{f['id']}: {f['what']}")
+
+
+def run(ctx: C.Ctx):
+    thorough = ctx.tier == "thorough"
+    impl_tables = C.run_impl("c16_impl.py", {})
+    if not ctx.exe:
+        # without the extracted model there are no pinned scores either: proof stage already failed
+        ctx.coverage.update({"evaluations": 0, "rule": "model executable unavailable", "trusted_base": C.COMMON_TRUSTED})
+        return
+    spec = load_spec(ctx)
+    n_names, n_acc = check_names(ctx, spec, impl_tables)
+
+    cases_all = build_cases(ctx)
+    n_out_guard = sum(1 for c in cases_all if not in_guard(c))
+    cases = [c for c in cases_all if in_guard(c)]
+    # float32 vs exact-rational: keep only cases on which every integer the firmware derives agrees
+    kept, n_inexact = [], 0
+    for c in cases:
+        if numeric_sites(c, spec, Fr) == numeric_sites(c, spec, F32):
+            kept.append(c)
+        else:
+            n_inexact += 1
+    cases = kept
+    models = ctx.model([wire_case(c) for c in cases])
+    units = sum(len(c["calls"]) + 1 for c in cases)
+    fwres, n_sketches = run_firmware(cases, 80 if thorough else max(20, -(-units // 38)))
+    n_ok = n_calls = 0
+    dist = {"kinds": {}, "calls": {}, "runtime_args": 0, "literal_args": 0, "seq_len": {}, "tones": 0, "delays": 0,
+            "cases_sounding_at_end": 0, "nonpositive_calls": 0}
+    for i, (case, m) in enumerate(zip(cases, models)):
+        segs = fwres.get(i)
+        dist["kinds"][case["kind"]] = dist["kinds"].get(case["kind"], 0) + 1
+        dist["seq_len"][len(case["calls"])] = dist["seq_len"].get(len(case["calls"]), 0) + 1
+        for c in case["calls"]:
+            dist["calls"][c["k"]] = dist["calls"].get(c["k"], 0) + 1
+            dist["nonpositive_calls"] += int((c["k"] in ("play", "beep") and c.get("f") is not None and qfreq(c["f"]) <= 0)
+                                             or (c["k"] == "sweep" and qfreq(c["s"]) <= 0 and qfreq(c["e"]) <= 0))
+            for key in ("f", "d", "on", "off", "times", "s", "e", "steps", "tempo"):
+                if c.get(key) is not None:
+                    dist["runtime_args" if c[key][1] else "literal_args"] += 1
+        if isinstance(segs, tuple) or segs is None:
+            ctx.disagree("firmware could not be produced/run for a generated case", case, "trace", segs)
+            continue
+        if m[0] != 0:
+            ctx.disagree("model rejected a generated case", case, m, None)
+            continue
+        n_calls += len(case["calls"])
+        if len(segs) != len(case["calls"]) + 1:
+            ctx.disagree("firmware trace does not have one getter block per call", case, len(case["calls"]) + 1, len(segs))
+            continue
+        fails = oracle(ctx, case, segs, spec)
+        ok = compare(ctx, case, model_segments(m), segs)
+        n_ok += ok and not fails
+        for evs, g in segs:
+            dist["tones"] += sum(1 for e in evs if e[0] == "T")
+            dist["delays"] += sum(1 for e in evs if e[0] == "D")
+        dist["cases_sounding_at_end"] += segs[-1][1][0]
+    replay_findings(ctx, spec)
+
+    distinct = len({repr((c["default"], c["calls"])) for c in cases if any(x["k"] != "stop" for x in c["calls"])})
+    ctx.coverage.update({
+        "evaluations": len(cases) + n_names,
+        "distinct_nontrivial": distinct,
+        "rule": "call sequences on one buzzer: (1) every point of the boundary grids (play_tone f x d, beep f x (on,off) x times, sweep s x e x (d,steps), melody x tempo; quick tier cycles the inner product, thorough takes it in full) chained four per case, literal and run-time (analog_read-routed) arguments alternating; (2) all ordered pairs over a 29-call boundary alphabet in four literal/run-time routings; (3) seeded random sequences of length <= 8 with per-argument routing, omitted defaults, keyword/positional spellings and case variants of melody names. Getters are printed before the first and after every call. Non-trivial = contains a call other than stop; distinct by (default, calls).",
+        "samples": [cases[0], cases[len(cases) // 2], cases[-1]],
+        "distribution": {**dist, "cases": len(cases), "calls_compared": n_calls, "sketches": n_sketches,
+                         "cases_clean": n_ok, "outside_guard_not_generated": n_out_guard,
+                         "float32_vs_exact_dropped": n_inexact, "melody_name_candidates": n_names, "melody_names_accepted": n_acc},
+        "exhaustive": False,
+        "guard": "durations/on_ms/off_ms >= 0 (negative: F-C16-negative-runtime-duration, float->unsigned UB); no beep with trunc(times) < 1 while a tone is left running (F-C16-beep-zero-keeps-tone); integer outputs on which float32 and exact-rational arithmetic differ are not generated (count in distribution.float32_vs_exact_dropped)",
+        "unmodelled": ["C++ float rounding (modelled as exact rationals; measured by the float32 filter and the correspondence)",
+                       "unsigned int / int / unsigned long overflow (tone frequency >= 2^16 on AVR, counts >= 2^15)",
+                       "static_cast<unsigned long> of a negative value (wrap-around for int expressions, undefined for float expressions; [neg] oracle in the model)",
+                       "non-ASCII melody names (str.lower of U+212A)", "IEEE specials", "several buzzers sharing one pin",
+                       "Arduino tone() with frequency 0 (a frequency in (0, 0.5) rounds to tone(pin, 0))"],
+        "trusted_base": C.COMMON_TRUSTED + ["harness/gen/melodies.py (translator plug-in for the melody tables)",
+                                             "mock Arduino core mock/* (tone/noTone/delay/Serial.println/analogRead), g++ -O0",
+                                             "harness/fw.py, harness/impl/transpile_impl.py, harness/impl/c16_impl.py",
+                                             "harness-side float32 emulation used only to drop float-sensitive cases"],
+    })
+    ctx.assumptions += ["the mock core's event trace is the definition of 'device'",
+                        "unsigned int is at least 17 bits wide for the generated frequencies (<= 65535.5)",
+                        "analog_read-routed expressions reach the casts as the int/double values the harness computes"]
+
+
+def replay(data):
+    """./check replay <file>: re-run the recorded case on the real firmware and print oracle verdicts"""
+    case = data.get("case")
+    if not isinstance(case, dict) or "calls" not in case:
+        return 0
+    ctx = C.Ctx("C16", "quick", 0)
+    ctx.prepare()
+    spec = load_spec(ctx)
+    fwres, _ = run_firmware([case], 10 ** 6)
+    segs = fwres.get(0)
+    print("firmware segments:", segs)
+    if isinstance(segs, tuple):
+        return 1
+    fails = oracle(ctx, case, segs, spec)
+    for f in fails:
+        print("FAIL", f)
+    return 1 if fails else 0
